@@ -1,9 +1,10 @@
 #!/bin/bash
 # Confirms every candidate seeded change in work/mutkeep/<Cxx>/{a,b}.diff in a scratch worktree:
 #  suite passes with the change, demo fails with the change, demo passes without it.
-out=/verif/work/confirm.log
+MUTDIR=${MUTDIR:-/verif/work/mutkeep}
+out=${OUT:-/verif/work/confirm.log}
 : > $out
-for d in /verif/work/mutkeep/C*; do
+for d in $MUTDIR/C*; do
   id=$(basename $d)
   for v in a b; do
     [ -f $d/$v.diff ] || continue
